@@ -19,7 +19,7 @@ Round-2 probes (helpers in harness/t6_c19.py), all evaluated on the real library
    computed by shifting and masking; unpack (no size / whole-byte size) is the inverse and pack(unpack(.)) the identity; fixed-width helpers with
    negative values and sign=True; swapN = swap(., N) = byte reversal; auto-sized pack for every bit length 0..130.
    The unmodified library's unpack() (hence swap()) rejects every explicit size that is not a multiple of 8: counted as a feature
-   (`unpack:explicit-size-not-multiple-of-8:rejected-by-the-library`), the predicate is kept behind `if False:  # PENDING-FINDING`.
+   (`unpack:explicit-size-not-multiple-of-8:rejected-by-the-library`), the library used to reject them in unpack/swap (found by this probe, repaired: fixed F46); they are checked like the others.
 """
 from __future__ import annotations
 
